@@ -178,6 +178,10 @@ def core_specs():
     # element-wise power with an ARRAY of exponents (entries with p == q are compiled as abs, the others as power cones)
     for form in ['le', 'obj', 'le_scaled']:
         S.append(dict(name='powerarr-%s' % form, atom='powerarr', form=form))
+    # an element-wise atom of ONE entry (or a norm) as the objective itself, with multipliers on both sides of 1
+    for base in ('abs', 'square', 'power3', 'power11', 'norm1', 'norminf', 'norm2'):
+        for c in (0.25, 0.5, 2.0):
+            S.append(dict(name='sobj-%s-c%g' % (base, c), atom='sobj', base=base, c=c, form='obj'))
     # the ARGUMENT is broadcast against the arrays of exponents (one entry, several exponents; a column against a row)
     for form in ['le', 'obj', 'le_scaled']:
         S.append(dict(name='powerbc-%s' % form, atom='powerbc', form=form))
@@ -445,6 +449,20 @@ def desc_from_spec(spec):
             else:
                 a.st(a.le(h, u))
                 a.min(a.sum(u) + a.sum(np.array([0.5, -0.5, 0.25]) * x))
+        elif atom == 'sobj':
+            base, c = spec['base'], spec['c']
+            x = a.dvar(2)
+            a.st(a.ge(x, -1.0))
+            a.st(a.le(x, 2.0))
+            a.st(a.le(x[0] + x[1], 2.5))
+            if base in ('norm1', 'norminf', 'norm2'):
+                e = np.array([[1.0, 0.5], [-1.0, 2.0]]) @ x - np.array([4.0, 1.0])
+                h = a.norm(e, {'norm1': 1, 'norminf': 'inf', 'norm2': 2}[base])
+            else:
+                e = x[0:1] * 1.0 + x[1:2] * 0.5 - 4.0
+                h = {'abs': a.abs, 'square': a.square, 'power3': (lambda t: a.power(t, 3)),
+                     'power11': (lambda t: a.power(t, 2, 2))}[base](e)
+            a.min(c * h + a.sum(np.array([0.5, 0.25]) * x))
         elif atom in ('powerbc', 'powerbc2d'):
             if atom == 'powerbc':
                 x = a.dvar(1)
